@@ -6,6 +6,7 @@ import (
 	"fmt"
 	"sort"
 	"strings"
+	"sync"
 
 	"github.com/ohler55/slip"
 )
@@ -14,6 +15,11 @@ import (
 // is added or removed while the user is interacting with a Completer instance
 // the lo, hi, and index could become offset.
 var completerWords []string
+
+// completerMu guards completerWords. Variables can be set from any routine
+// and each set of a new variable adds a word. The slice is replaced, never
+// modified in place, so a slice returned by WordMatch stays intact.
+var completerMu sync.Mutex
 
 // Completer provides completion choices given a partial word. Words are
 // stored in a slice in sorted order to optimize not only the search for a
@@ -78,6 +84,12 @@ func addHook(p *slip.Package, key string) {
 // words is returned along with the low and high indices into the word slice
 // for matches that begin with the provided word.
 func WordMatch(word string) (words []string, lo, hi int) {
+	completerMu.Lock()
+	defer completerMu.Unlock()
+	return wordMatch(word)
+}
+
+func wordMatch(word string) (words []string, lo, hi int) {
 	if len(completerWords) == 0 {
 		initWords()
 	}
@@ -127,20 +139,27 @@ func WordMatch(word string) (words []string, lo, hi int) {
 }
 
 func addWord(word string) {
+	completerMu.Lock()
+	defer completerMu.Unlock()
 	if len(completerWords) == 0 {
 		initWords()
 	}
 	word = strings.ToLower(word)
-	words, _, _ := WordMatch(word)
+	words, _, _ := wordMatch(word)
 	if words == nil {
-		completerWords = append(completerWords, word)
-		sort.Strings(completerWords)
+		nw := make([]string, len(completerWords)+1)
+		copy(nw, completerWords)
+		nw[len(completerWords)] = word
+		sort.Strings(nw)
+		completerWords = nw
 	}
 }
 
 func removeWord(word string) {
+	completerMu.Lock()
+	defer completerMu.Unlock()
 	word = strings.ToLower(word)
-	if words, lo, hi := WordMatch(word); words != nil {
+	if words, lo, hi := wordMatch(word); words != nil {
 		for ; lo <= hi; lo++ {
 			if words[lo] == word {
 				break
@@ -150,9 +169,8 @@ func removeWord(word string) {
 			// Not in words.
 			return
 		}
-		if lo < len(completerWords)-1 {
-			copy(completerWords[lo:], completerWords[lo+1:])
-		}
-		completerWords = completerWords[:len(completerWords)-1]
+		nw := make([]string, 0, len(completerWords)-1)
+		nw = append(nw, completerWords[:lo]...)
+		completerWords = append(nw, completerWords[lo+1:]...)
 	}
 }
